@@ -32,3 +32,25 @@ package log
 //@   on return assert name-field-is-the-name: r0 && !contains(text[0], ":") ==> namefield(line) == text[0]
 //@   on return assert exact-record-gives-yes: hasprefix(line, text[0] + ":") && forall(k, 1, len(text), contains(substr(line, len(text[0]), len(line)), text[k])) ==> r0
 //@   loop 0 invariant -1 <= rangeindex && forall(k, 1, rangeindex + 2, contains(substr(line, len(text[0]), len(line)), text[k]))
+
+//@ func (*rollingFile).search trusted
+//@   modifies nothing
+
+//@ func (*FileIO).wasWritten
+//@   before call (*rollingFile).search assert looks-up-name-and-hash: arg1[0] == relPath && (hash == "" ==> len(arg1) == 1) && (hash != "" ==> len(arg1) == 2 && arg1[1] == ":" + hash + ":") && arg2 == after && arg3 == before && arg0 == f.logger
+//@   on return assert answer-is-the-search-result: called((*rollingFile).search) && result == lastret((*rollingFile).search, 0)
+
+//@ func (*FileIO).WasReceived
+//@   on return assert delegates: called((*FileIO).wasWritten) && result == lastret((*FileIO).wasWritten, 0) && lastarg((*FileIO).wasWritten, 1) == relPath && lastarg((*FileIO).wasWritten, 2) == hash && lastarg((*FileIO).wasWritten, 3) == after && lastarg((*FileIO).wasWritten, 4) == before
+//@ func (*FileIO).WasSent
+//@   on return assert delegates: called((*FileIO).wasWritten) && result == lastret((*FileIO).wasWritten, 0) && lastarg((*FileIO).wasWritten, 1) == relPath && lastarg((*FileIO).wasWritten, 2) == hash && lastarg((*FileIO).wasWritten, 3) == after && lastarg((*FileIO).wasWritten, 4) == before
+
+// the records: name first, fields separated by ":" (what the look-up and Parse rely on)
+//@ func (*FileIO).Received
+//@   before send chan-send assert record-format: arg1 == file.GetName() + ":" + file.GetRenamed() + ":" + file.GetHash() + ":" + itoa(file.GetSize()) + ":" + itoa(lastret((time.Time).Unix, 0)) + ":" && arg0 == f.logCh
+//@ func (*FileIO).Sent
+//@   before send chan-send assert record-format: hasprefix(arg1, file.GetName() + ":" + file.GetHash() + ":" + itoa(file.GetSize()) + ":") && arg0 == f.logCh
+
+//@ func (*rollingFile).log
+//@   on return assert sync-when-required: rf.keepInSync ==> called((*os.File).Sync) && lastarg((*os.File).Sync, 0) == rf.fh
+//@   before call (*log.Logger).Println assert rotated-first: called((*rollingFile).rotate)
